@@ -167,6 +167,17 @@ package virtual
 //@ func (*inMemoryPrepopulatedDirectory).RemoveAllChildren
 //@   props C13
 //@   ensures only-deleted-when-asked-to: !deleteSelf ==> i.contents.isDeleted == old(i.contents.isDeleted)
+// CreateChildren(overwrite) unlinks the entries it replaces under the lock and
+// cleans them up (removal notification, recursive removal, Unlink) after the
+// lock is dropped, by walking the chain it built through their `previous`
+// fields. One step of "the chain holds every unlinked entry": each unlinked
+// entry is put in front of the chain of those unlinked before it.
+//@ ghost map chainowed(ref) int zero
+//@ func (*inMemoryPrepopulatedDirectory).CreateChildren
+//@   props C13
+//@   at call detach#1 ghostset chainowed[arg2] = overwrittenEntries
+//@   loop 0 invariant every-replaced-entry-is-chained-in-front-of-the-earlier-ones: overwrittenEntries != nil ==> overwrittenEntries.previous == chainowed(overwrittenEntries)
+//@   at call postRemoveChildren#1 assert the-whole-chain-is-handed-to-the-clean-up: arg1 == overwrittenEntries
 //@ func (*inMemoryPrepopulatedDirectory).filterChildrenRecursive$1
 //@   props C13
 //@   ensures the-remover-handed-to-a-filter-empties-but-keeps-the-directory: i.contents.isDeleted == old(i.contents.isDeleted)
